@@ -74,4 +74,5 @@ ValsT == {"1", "+1", "-0.25", "1e-1", ".5", "0", "abc", "R", "S", "2.5e-1"}
 Faults == {[k |-> "w", v |-> "ab=c", eq |-> 2], [k |-> "foo", v |-> "a=b", eq |-> 2],
            \* two '=' with an empty side: w==1, w=1=
            [k |-> "w", v |-> "=1", eq |-> 2], [k |-> "w", v |-> "1=", eq |-> 2]}
+FaultsQ == {[k |-> "w", v |-> "ab=c", eq |-> 2], [k |-> "w", v |-> "=1", eq |-> 2], [k |-> "foo", v |-> "1=", eq |-> 2]}
 =============================================================================
